@@ -106,6 +106,8 @@ func recacheAggregatorContext(ctx sdk.Context, agc *aggregator.AggregatorContext
 		p = recentParamsMap[prev]
 		agc.SetParams(p)
 		setCommonParams(p)
+		// the rounds that were opened by the EndBlock of the previous height have to exist after a restart too
+		agc.PrepareRoundEndBlock(uint64(to - 1))
 	} else {
 		prev := int64(0)
 		for ; from < to; from++ {
